@@ -50,6 +50,9 @@ type fakeClient struct {
 func (c *fakeClient) Ping(ctx context.Context) (time.Duration, string, error) { return 0, "sim", nil }
 
 func (c *fakeClient) Write(bp influxdb.BatchPoints) error {
+	if !simrt.Active() {
+		return errors.New("simulated process is gone")
+	}
 	if c.f.WriteLatency != nil {
 		if d := c.f.WriteLatency(); d > 0 {
 			time.Sleep(d)
@@ -72,6 +75,9 @@ func (c *fakeClient) Write(bp influxdb.BatchPoints) error {
 func (c *fakeClient) WriteV2(w influxdb.FluxWrite) error { return errors.New("not simulated") }
 
 func (c *fakeClient) Query(q influxdb.Query) (*influxdb.Response, error) {
+	if !simrt.Active() {
+		return nil, errors.New("simulated process is gone")
+	}
 	c.f.Queries = append(c.f.Queries, RecQuery{Stamp: simrt.Stamp(), AtNs: simrt.NowNs(), Command: q.Command, DB: q.Database, Cluster: c.cluster})
 	if c.f.QueryLatency != nil {
 		if d := c.f.QueryLatency(); d > 0 {
